@@ -291,6 +291,15 @@ def run(ctx: Ctx) -> int:
         construct="linked_targets narrowed by key only",
     )
 
+    # the sources of a link are the positional arguments of compute_fn, in the order the user listed them: nothing
+    # between link_arguments and call_compute_fn reorders or de-duplicates them
+    for ref in ("_link_arguments:ArgumentLinking.link_arguments", "_link_arguments:ActionLink.__init__"):
+        fn_ = ctx.func(ref)
+        reord = [c for c in calls_in(fn_) if isinstance(c.func, ast.Name) and c.func.id in ("sorted", "set", "reversed", "frozenset") and any(isinstance(x, ast.Name) and x.id == "source" for a in c.args for x in ast.walk(a))]
+        reord += [c for c in calls_in(fn_) if isinstance(c.func, ast.Attribute) and c.func.attr in ("sort", "reverse") and root_name(c.func) == "source"]
+        ok = not reord
+        ctx.oblige("C15.d", ok, reord[0] if reord else fn_, "the source keys reach compute_fn in the order they were given" if ok else f"`{src(reord[0], 50)}` reorders / de-duplicates the source keys: compute_fn receives its positional arguments in a different order than the link declares (silently wrong value for non-commutative functions)", fn=fn_, construct="source order preserved")
+
     # ---------------- C15.f ----------------------------------------------------
     # "the target of a link is not required from the user": _add_signature_parameter turns a required parameter that
     # is a link target into an optional one.  Every decision that depends on `is_required` (fallback type for untyped
